@@ -102,6 +102,7 @@ def same_call_same_key(alias: str, i: int, s: str, b: bool, ex1: int, ex2: int, 
                        kw_flip: bool, dict_flip: bool, set_flip: bool, x_by_kw: bool) -> bool:
     """
     pre: len(alias) <= B('AL') and len(s) <= B('SL')
+    pre: all(0 <= v < 1000 for v in (i, ex1, ex2, p, q1, q2))
     post: _
     """
     ctx.begin()
@@ -136,15 +137,17 @@ def different_calls_different_keys(alias1: str, alias2: str, i1: int, i2: int, s
     shape = ctx.S('shape')
     capk = ctx.S('capture')
     static = bool(ctx.S('static'))
-    which = ctx.pick(which, (0, 1, 2, 3))
+    which = ctx.S('which') if ctx.S('which') is not None else ctx.pick(which, (0, 1, 2, 3))
     TR = _install(False)
     cap = _capture(capk)
+    # the component that differs is symbolic; of the others the int leaves stay symbolic (one code point each), the
+    # text components are fixed (two long symbolic texts on both sides make the solver's string theory the bottleneck)
     if which != 0:
-        alias2 = alias1
+        alias1 = alias2 = 'r.{x}'
     if which != 1:
         i2 = i1
     if which != 2:
-        s2 = s1
+        s1 = s2 = 'a"'
     if which != 3:
         p2 = p1
     differs = (alias1 != alias2) or (i1 != i2) or (s1 != s2) or (p1 != p2)
@@ -163,7 +166,7 @@ def different_calls_different_keys(alias1: str, alias2: str, i1: int, i2: int, s
 
 def resolver_alias(name1: str, name2: str, i: int) -> bool:
     """
-    pre: len(name1) <= B('AL') and len(name2) <= B('AL')
+    pre: len(name1) <= B('AL') and len(name2) <= B('AL') and 0 <= i < 1000
     post: _
     """
     # resolver-formatted aliases: different resolved parameters => different keys, equal ones => equal keys
@@ -226,10 +229,11 @@ CONDITIONS = [
     {'fn': 'different_calls_different_keys', 'nontrivial': 'differing-calls',
      'what': 'a different alias / captured leaf / captured keyword value => a different key',
      'tiers': {'quick': {'bounds': {'AL': 2, 'SL': 2, 'IMAX': 100}, 'timeout': 300,
-                         'shards': [{'shape': sh, 'capture': c, 'static': st} for sh in ('int', 'str', 'list', 'dict', 'nested')
-                                    for c, st in (('all', False), ('by-position-and-name', True))],
+                         'shards': [{'shape': sh, 'capture': c, 'static': st, 'which': w} for sh in ('int', 'str', 'list', 'dict', 'nested')
+                                    for c, st in (('all', False), ('by-position-and-name', True)) for w in range(4)],
                          'witness_shard': _W},
-               'thorough': {'bounds': {'AL': 3, 'SL': 3, 'IMAX': 1000}, 'timeout': 3000, 'shards': _TSH, 'witness_shard': _W}}},
+               'thorough': {'bounds': {'AL': 3, 'SL': 3, 'IMAX': 1000}, 'timeout': 3000,
+                            'shards': [dict(x, which=w) for x in _TSH for w in range(4)], 'witness_shard': _W}}},
     {'fn': 'resolver_alias', 'nontrivial': 'resolved',
      'what': 'resolver-formatted aliases separate calls exactly by the resolved parameters',
      'tiers': {'quick': {'bounds': {'AL': 3}, 'timeout': 200, 'shards': [{}]},
